@@ -23,7 +23,7 @@ Proof. intros. unfold wpush. constructor; [apply mask_word|assumption]. Qed.
 
 Lemma znth_word s i : Forall word s -> word (znth s i 0).
 Proof.
-  intros H. unfold znth. destruct (nth_in_or_default (Z.to_nat i) s 0) as [Hin|->]; [|apply word_0].
+  intros H. unfold znth. destruct (nth_in_or_default (Z.to_nat i) s 0) as [Hin|Heq]; [|rewrite Heq; apply word_0].
   rewrite Forall_forall in H. apply H. assumption.
 Qed.
 
@@ -66,11 +66,16 @@ Section Refine.
     exec spec_op jd2 c input k opc st = Next st' -> Forall word (s_stk st').
   Proof.
     intros Hw. destruct k; cbn [exec];
+      try (lazymatch goal with
+           | |- context [set_nth] =>
+               destruct (s_stk st) as [|t r] eqn:Es; intros E; [discriminate|];
+               injection E as E'; rewrite <- E'; cbn [s_stk upd];
+               apply set_nth_words; [constructor; [apply znth_word; assumption|inv_words; assumption]|inv_words; assumption]
+           end; fail 1);
       try (destruct (s_stk st) as [|a [|b [|d r]]] eqn:Es);
       repeat match goal with |- context [if ?b then _ else _] => destruct b end;
-      intros E; try discriminate; inversion E; subst; cbn [s_stk upd]; inv_words;
-      repeat first [assumption | apply wpush_words | constructor | apply set_nth_words | apply znth_word
-                   | rewrite <- Es ].
+      intros E; try discriminate; injection E as E'; rewrite <- E'; cbn [s_stk upd]; inv_words;
+      repeat first [assumption | apply wpush_words | constructor | apply znth_word | rewrite Es ].
   Qed.
 
   Lemma step_refine st : Forall word (s_stk st) ->
@@ -122,8 +127,4 @@ Section Refine.
     unfold call. destruct c eqn:E; [reflexivity|]. rewrite <- E. apply run_refine. constructor.
   Qed.
 
-  (* stack invariant along a specification run, as a reachable-state statement *)
-  Lemma run_words fuel : forall st, Forall word (s_stk st) ->
-    forall o h, run spec_op jd2 P c input fuel st = (o, h) -> True.
-  Proof. trivial. Qed.
 End Refine.
